@@ -436,7 +436,7 @@ func c06Gen(c *core.Ctx) {
 			core.Do(c, c06Case{Src: rd.Text, Fault: 1 + r.IntN(len(rs)-1), Kind: "read-fault"}, c06Exec)
 		}
 	}
-	for _, s := range []string{"echo ${x", "echo 'x", "f \"x", "a b ${x", "a=1 b $(", "a; b ${", "a `x", "echo $((1", "a | | $(", "a ) 'x", "a ;; \"${", "fi ${x", "a | | b c d e", "cat <<E <<F\nx\nE\ny\nF\n", "echo $(cat <<E\nx\nE\n) $(cat <<F\ny\nF\n)\n", "a `cat <<E\nx\nE\n` b\n", "{ cat <<E\nx\nE\n}\n", "cat <<E\nx\n", "echo $(a $(b) `c`) $((1+2))", "echo $(a | | b) 'x", "echo `a ) b` \"", "if a; then b; fi; )", "a <<E; b ) c\nx\nE\n", "$(( 1 ", "${x:-$(a | )}", "a\nb\n", "(a; b) | c & d", "{ a; } }", "for x in a b; do c; done done"} {
+	for _, s := range []string{"a <<E 'b", "a <<E \"b", "a <<E ${x", "cat <<E $(", "a <<E `\n)    ${}", "a <<E $(\n)    ${}", "a <<E; 'b", "a <<-E <<F 'b\n", "{ a <<E 'b\n}", "echo ${x", "echo 'x", "f \"x", "a b ${x", "a=1 b $(", "a; b ${", "a `x", "echo $((1", "a | | $(", "a ) 'x", "a ;; \"${", "fi ${x", "a | | b c d e", "cat <<E <<F\nx\nE\ny\nF\n", "echo $(cat <<E\nx\nE\n) $(cat <<F\ny\nF\n)\n", "a `cat <<E\nx\nE\n` b\n", "{ cat <<E\nx\nE\n}\n", "cat <<E\nx\n", "echo $(a $(b) `c`) $((1+2))", "echo $(a | | b) 'x", "echo `a ) b` \"", "if a; then b; fi; )", "a <<E; b ) c\nx\nE\n", "$(( 1 ", "${x:-$(a | )}", "a\nb\n", "(a; b) | c & d", "{ a; } }", "for x in a b; do c; done done"} {
 		emit(s, "dedicated")
 	}
 	// arithmetic: expressions with 0, 1 and >=2 faults, through Eval and Expand
